@@ -455,8 +455,15 @@ def table_rule(ctx: Ctx, rule: str, fref: str, views: list[PathView], spec: Tabl
     elif uncovered:
         facts["uncovered"] = uncovered[:5]
         msg = f"no path of {fref} covers valuation {uncovered[0]}"
-    rows = [{"valuation": dict(zip(names, k)), "outcomes": sorted(v)} for k, v in sorted(covered.items(), key=lambda kv: repr(kv[0]))]
-    ctx.tables[f"{ctx.prop}.{rule}"] = rows[:64] + ([{"truncated": len(rows) - 64}] if len(rows) > 64 else [])
+    # evidence: the extracted table, a few rows per distinct outcome (complete when small)
+    by_outcome: dict[str, list] = {}
+    for k, v in sorted(covered.items(), key=lambda kv: repr(kv[0])):
+        by_outcome.setdefault(" | ".join(sorted(v)), []).append(dict(zip(names, k)))
+    rows = []
+    per = 64 if len(covered) <= 64 else max(2, 48 // max(1, len(by_outcome)))
+    for out, vals in sorted(by_outcome.items()):
+        rows.append({"outcome": out, "valuations_with_this_outcome": len(vals), "examples": vals[:per]})
+    ctx.tables[f"{ctx.prop}.{rule}"] = rows
     ctx.record(rule, "TABLE", fref, construct or f"decision table of {fref.split(':')[1]}", ok, facts, msg)
 
 
